@@ -53,6 +53,24 @@ fn run(line: &str) -> String {
         "x25519" => hx(&x25519_dalek::x25519(a32(t[1]), a32(t[2]))),
         "x25519.static_dh" => { let s = x25519_dalek::StaticSecret::from(a32(t[1])); let pk = x25519_dalek::PublicKey::from(a32(t[2])); let ss = s.diffie_hellman(&pk); format!("{} {}", hx(ss.as_bytes()), ss.was_contributory() as u8) }
         "x25519.public" => { let s = x25519_dalek::StaticSecret::from(a32(t[1])); hx(x25519_dalek::PublicKey::from(&s).as_bytes()) }
+        // ---- serde through real bincode (fixed-int little-endian): tuples of 32 u8 for the curve types, length-prefixed bytes for the ed25519 types
+        "serde.ed_de" => match bincode::deserialize::<EdwardsPoint>(&hex(t[1])) { Ok(p) => hx(p.compress().as_bytes()), Err(_) => "ERR".into() },
+        "serde.ris_de" => match bincode::deserialize::<RistrettoPoint>(&hex(t[1])) { Ok(p) => hx(p.compress().as_bytes()), Err(_) => "ERR".into() },
+        "serde.cey_de" => match bincode::deserialize::<CompressedEdwardsY>(&hex(t[1])) { Ok(p) => hx(p.as_bytes()), Err(_) => "ERR".into() },
+        "serde.cris_de" => match bincode::deserialize::<CompressedRistretto>(&hex(t[1])) { Ok(p) => hx(p.as_bytes()), Err(_) => "ERR".into() },
+        "serde.mont_de" => match bincode::deserialize::<MontgomeryPoint>(&hex(t[1])) { Ok(p) => hx(p.as_bytes()), Err(_) => "ERR".into() },
+        "serde.scalar_de" => match bincode::deserialize::<Scalar>(&hex(t[1])) { Ok(p) => hx(p.as_bytes()), Err(_) => "ERR".into() },
+        "serde.ed_ser" => { let p = CompressedEdwardsY(a32(t[1])).decompress().unwrap(); hx(&bincode::serialize(&p).unwrap()) }
+        "serde.ris_ser" => { let p = CompressedRistretto(a32(t[1])).decompress().unwrap(); hx(&bincode::serialize(&p).unwrap()) }
+        "serde.scalar_ser" => hx(&bincode::serialize(&Scalar::from_bytes_mod_order(a32(t[1]))).unwrap()),
+        "serde.mont_ser" => hx(&bincode::serialize(&MontgomeryPoint(a32(t[1]))).unwrap()),
+        "serde.vk_ser" => match VerifyingKey::from_bytes(&a32(t[1])) { Ok(v) => hx(&bincode::serialize(&v).unwrap()), Err(_) => "BADKEY".into() },
+        "serde.vk_de" => match bincode::deserialize::<VerifyingKey>(&hex(t[1])) { Ok(v) => hx(v.as_bytes()), Err(_) => "ERR".into() },
+        "serde.sk_ser" => hx(&bincode::serialize(&SigningKey::from_bytes(&a32(t[1]))).unwrap()),
+        "serde.sk_de" => match bincode::deserialize::<SigningKey>(&hex(t[1])) { Ok(v) => hx(&v.to_bytes()), Err(_) => "ERR".into() },
+        "serde.sig_ser" => hx(&bincode::serialize(&Signature::from_bytes(&a64(t[1]))).unwrap()),
+        "serde.sig_de" => match bincode::deserialize::<Signature>(&hex(t[1])) { Ok(v) => hx(&v.to_bytes()), Err(_) => "ERR".into() },
+        "serde.xpk_rt" => { let pk = x25519_dalek::PublicKey::from(a32(t[1])); let b = bincode::serialize(&pk).unwrap(); let q: x25519_dalek::PublicKey = bincode::deserialize(&b).unwrap(); format!("{} {}", hx(&b), hx(q.as_bytes())) }
         "sc.from_canonical" => { let r = Scalar::from_canonical_bytes(a32(t[1])); if bool::from(r.is_some()) { hx(r.unwrap().as_bytes()) } else { "NONE".into() } }
         "sc.reduce32" => hx(Scalar::from_bytes_mod_order(a32(t[1])).as_bytes()),
         "sc.reduce64" => hx(Scalar::from_bytes_mod_order_wide(&a64(t[1])).as_bytes()),
